@@ -320,7 +320,7 @@ namespace xtl
     };
 
     template <class Arg1, class Arg2, class... Args>
-    struct disjunction<Arg1, Arg2, Args...> : std::conditional_t<Arg1::value, Arg1, disjunction<Arg2, Args...>>
+    struct disjunction<Arg1, Arg2, Args...> : std::conditional_t<bool(Arg1::value), Arg1, disjunction<Arg2, Args...>>
     {
     };
 
@@ -342,7 +342,7 @@ namespace xtl
     };
 
     template <class Arg1, class Arg2, class... Args>
-    struct conjunction<Arg1, Arg2, Args...> : std::conditional_t<Arg1::value, conjunction<Arg2, Args...>, Arg1>
+    struct conjunction<Arg1, Arg2, Args...> : std::conditional_t<bool(Arg1::value), conjunction<Arg2, Args...>, Arg1>
     {
     };
 
@@ -351,7 +351,7 @@ namespace xtl
      ******************/
 
     template <class Arg>
-    struct negation : std::integral_constant<bool, !Arg::value>
+    struct negation : std::integral_constant<bool, !bool(Arg::value)>
     {
     };
 
